@@ -141,12 +141,14 @@ bool ops_diff(World &w, const Op &o) {
       else if (e->obj_attr.diff.generic.type == HWLOC_TOPOLOGY_DIFF_OBJ_ATTR_SIZE) e->obj_attr.diff.uint64.oldvalue += 1;
       else { free(e->obj_attr.diff.string.oldvalue); e->obj_attr.diff.string.oldvalue = strdup("WRONG-OLD-VALUE"); }
       std::string before = diffdump(C);
+      if (w.run->verbose) { unsigned k = 0; for (hwloc_topology_diff_t x = chain; x; x = x->generic.next) { k++; if (x->generic.type == HWLOC_TOPOLOGY_DIFF_OBJ_ATTR) { auto &a = x->obj_attr; if (a.diff.generic.type == HWLOC_TOPOLOGY_DIFF_OBJ_ATTR_SIZE) fprintf(stderr, "  entry %u: depth %d index %u SIZE %llu -> %llu\n", k, a.obj_depth, a.obj_index, (unsigned long long)a.diff.uint64.oldvalue, (unsigned long long)a.diff.uint64.newvalue); else fprintf(stderr, "  entry %u: depth %d index %u %s '%s': '%s' -> '%s'\n", k, a.obj_depth, a.obj_index, a.diff.generic.type == HWLOC_TOPOLOGY_DIFF_OBJ_ATTR_NAME ? "NAME" : "INFO", a.diff.string.name ? a.diff.string.name : "", a.diff.string.oldvalue ? a.diff.string.oldvalue : "(null)", a.diff.string.newvalue ? a.diff.string.newvalue : "(null)"); } else fprintf(stderr, "  entry %u: type %d\n", k, (int)x->generic.type); } }
       int pr = hwloc_topology_diff_apply(C, chain, 0);
       r.ev("diff poisoned entry %u/%u kind %d -> %d", N, len, pk, pr); r.count("probe.diff_poisoned_apply");
       if (pr != -(int)N) viol0(w, own, "diff.rollback.return", "entry %u of %u cannot be applied but diff_apply returned %d instead of %d", N, len, pr, -(int)N);
       { std::string after = diffdump(C); if (after != before) { size_t pa = 0, pb = 0; std::string la, lb; while (pa < before.size() || pb < after.size()) { size_t ea = before.find('\n', pa), eb = after.find('\n', pb); if (ea == std::string::npos) ea = before.size(); if (eb == std::string::npos) eb = after.size(); la = before.substr(pa, ea - pa); lb = after.substr(pb, eb - pb); if (la != lb) break; pa = ea + 1; pb = eb + 1; }
           // known finding (same defect as diff.apply.duplicate_info_pair): the differing object carries two infos with the same name, which an entry cannot tell apart once their values coincide
           { bool dupname = false; for (hwloc_obj_t x : all_objs(C)) for (unsigned q = 0; q < x->infos.count; q++) for (unsigned q2 = q + 1; q2 < x->infos.count; q2++) if (!strcmp(x->infos.array[q].name, x->infos.array[q2].name) && la.find("{" + std::string(x->infos.array[q].name) + "=") != std::string::npos) dupname = true;
+            { struct hwloc_infos_s *ti = hwloc_topology_get_infos(C); for (unsigned q = 0; ti && q < ti->count; q++) for (unsigned q2 = q + 1; q2 < ti->count; q2++) if (!strcmp(ti->array[q].name, ti->array[q2].name) && la.compare(0, 3, "TI ") == 0 && la.find("{" + std::string(ti->array[q].name) + "=") != std::string::npos) dupname = true; }   // same for the topology infos (several Backend= entries)
             if (dupname && la.substr(0, la.find('{')) == lb.substr(0, lb.find('{'))) viol0(w, own, "diff.rollback.state.duplicate_info_name", "diff_apply failed at entry %u of %u (returned %d); an object with two infos of the same name was not restored: '%s' became '%s'", N, len, pr, la.substr(0, 300).c_str(), lb.substr(0, 300).c_str()); }
           viol0(w, own, "diff.rollback.state", "diff_apply failed at entry %u of %u (returned %d) and left the topology modified: '%s' became '%s'", N, len, pr, la.substr(0, 500).c_str(), lb.substr(0, 500).c_str()); } }
     }
